@@ -78,3 +78,18 @@ def d5(cx: Cx, ob: Ob) -> None:
     check_no_raise(cx, ob, STD)
     check_strict_classes(cx, ob, STD)
     check_tails(cx, ob, STD)
+
+
+
+@obligation("C06-X1", "OWN (shared with C10): no function that takes a converter stores into, mutates or captures the Record objects of its input - a converter whose records are changed behind its back no longer matches its own lookup tables", floor=6)
+def x1(cx: Cx, ob: Ob) -> None:
+    from .c10 import check_no_aliasing
+
+    check_no_aliasing(cx, ob)
+
+
+@obligation("C06-X2", "state closure (shared with C05): all derived converter state is maintained by _index, lookup tables are never rebound after construction, and no query method writes converter state (no stale caches)", floor=5)
+def x2(cx: Cx, ob: Ob) -> None:
+    from ..rules import state_closure
+
+    state_closure(cx, ob)
